@@ -34,8 +34,9 @@ PROPERTY = "C08"
 LEVEL = "exploration"
 
 # The statement requires word coverage of the PDF; for the OpenDocument writer it requires a
-# well-formed, lint-clean package and no exception.  Word coverage of content.xml is measured
-# and reported in the evidence; it enters the verdict only if this is switched on.
+# well-formed, lint-clean package and no exception / giving up.  For the ODF text the verdict
+# requires the article titles only (no article was given up); full word coverage of content.xml
+# is measured and reported in the evidence and enters the verdict only if this is switched on.
 ODF_WORDS_IN_VERDICT = False
 
 COLL_CFG = """SPECIFICATION Spec
@@ -192,6 +193,11 @@ def scope_den(case, r):
 
 def make_run(case, r):
     den = scope_den(case, r)
+    is_rl = r["kind"].startswith("rl.")
+    if not is_rl and not ODF_WORDS_IN_VERDICT:
+        # output-level minimum for the ODF writer: it did not give up on an article - the title of
+        # every article of the rendered scope is in content.xml
+        den = [d for d in den if d["c"] == "article-title"]
     ev = [{"s": s, "a": a} for s, a in r["events"]]
     if r.get("harness"):
         ev.append({"s": "Hang" if r["harness"].get("hang") else "Crash", "a": 0})
@@ -199,11 +205,10 @@ def make_run(case, r):
         ev.append({"s": "Raise", "a": 0})
     else:
         ev.append({"s": "Judge", "a": 0})
-    is_rl = r["kind"].startswith("rl.")
     ok = not r["problems"] and (r["pages"] >= 1 if is_rl else True)
     return {"n": len(case["arts"]) if r["art"] is None else 1,
             "den": sorted({d["w"] for d in den}),
-            "req": bool(is_rl or ODF_WORDS_IN_VERDICT),
+            "req": True,
             "ev": ev, "found": sorted(r["found"]), "ok": bool(ok)}
 
 
@@ -226,7 +231,8 @@ def validate_runs(ctx, runs, name):
 
 def trace_selftest(ctx):
     """non-vacuity of the trace validation, run every time: hand-corrupted runs must be rejected
-    by TLC at the expected event, the intact one accepted"""
+    by TLC at the expected event; runs whose STAGE observations are missing or out of order but
+    whose output-level verdict is fine must be accepted with the deviation flag"""
     def evs(*xs):
         return [{"s": s, "a": a} for s, a in xs]
     full = [("OpenArchive", 0), ("Expand", 1), ("Parse", 1), ("Clean", 1), ("Layout", 1), ("Output", 0), ("Judge", 0)]
@@ -235,18 +241,21 @@ def trace_selftest(ctx):
         dict(base, ev=evs(*full)),                                                       # accepted
         dict(base, ev=evs(*full), found=[1, 701]),                                       # word 2 lost
         dict(base, ev=evs(*full), ok=False),                                             # unreadable output
-        dict(base, ev=evs(full[0], full[5], full[6])),                                   # article skipped
-        dict(base, ev=evs(full[0], full[2], full[1], *full[3:])),                        # Parse before Expand
+        dict(base, ev=evs(full[0], full[5], full[6])),                                   # no stage observed: accepted, deviated
+        dict(base, ev=evs(full[0], full[2], full[1], *full[3:])),                        # Parse before Expand: accepted, deviated
         dict(base, ev=evs(*full[:5], ("Fail", 1))),                                      # first pass fails
-        dict(base, ev=evs(*full[:5], *full[1:5], *full[5:])),                            # starts over
-        dict(base, n=2, ev=evs(*full[:5], ("Output", 0), ("Judge", 0))),                 # 2nd article never seen
+        dict(base, ev=evs(*full[:5], ("SecondPass", 0), *full[5:])),                     # second pass announced
+        dict(base, n=2, ev=evs(*full[:5], ("Output", 0), ("Judge", 0))),                 # 2nd article not observed: accepted, deviated
         dict(base, ev=evs(*full[:4])),                                                   # stops early
-        dict(base, ev=evs(*full), req=False, found=[]),                                  # words not required
+        dict(base, ev=evs(*full[:5], ("Raise", 0))),                                     # entry point raises
+        dict(base, ev=evs(*full[:5], ("Judge", 0))),                                     # verdict without an output file
+        dict(base, ev=evs(full[0], full[5], full[6]), found=[1, 2]),                     # title lost, no stage observed
     ]
-    want = [("accepted", 8), ("rejected", 7), ("rejected", 7), ("rejected", 2), ("rejected", 2), ("rejected", 6),
-            ("rejected", 6), ("rejected", 6), ("incomplete", 5), ("accepted", 8)]
+    want = [("accepted", 8, False), ("rejected", 7, False), ("rejected", 7, False), ("accepted", 4, True),
+            ("accepted", 8, True), ("rejected", 6, False), ("rejected", 6, False), ("accepted", 8, True),
+            ("incomplete", 5, False), ("rejected", 6, False), ("rejected", 6, False), ("rejected", 3, True)]
     verdicts, _ = validate_runs(ctx, runs, "RenderTrace_selftest")
-    got = [(v["verdict"], v["l"]) for v in verdicts]
+    got = [(v["verdict"], v["l"], v["deviated"]) for v in verdicts]
     if got != want:
         ctx.machinery("trace validation self-test: TLC verdicts %r, expected %r" % (got, want))
     if verdicts[1]["missing"] != [2]:
@@ -336,13 +345,14 @@ def name_rejection(case, r, run, v):
         e = r["exc"]
         return [("%s %s %s | %s" % (fam, e["cls"], e["frame"], kind),
                  "%s raises %s in %s: %s" % (where, e["cls"], e["frame"], e["msg"][:200]))]
+    if s == "SecondPass":
+        e = r["exc"]
+        tail = ("; it ends in %s(%r) caused by %s in %s" % (e["outer"], e["outer_msg"], e["cls"], e["frame"])) if e else ""
+        return [("%s second (fail-safe) rendering pass%s | %s" % (fam, (" then %s %s" % (e["cls"], e["frame"])) if e else "", kind),
+                 "%s: the writer announced 'laying out' %s times: its normal pass failed and it started over%s"
+                 % (where, "several", tail))]
     if s == "Output":
-        lag = v["lagging"]
-        first = min(v["stages"][i - 1] for i in lag)
-        who = "all articles" if len(lag) == run["n"] else "article(s) %s of %d" % (",".join(map(str, lag)), run["n"])
-        return [("%s Output reached with stage %s not reached for %s | %s" % (fam, STAGE_NAME[first], who, kind),
-                 "%s writes its output although stage %s was never reached for %s (stages per article: %s)"
-                 % (where, STAGE_NAME[first], who, v["stages"]))]
+        return [("%s second output | %s" % (fam, kind), "%s: TLC rejects the Output event in phase %s" % (where, v["phase"]))]
     if s == "Judge":
         out = []
         for p in r["problems"]:
@@ -366,10 +376,7 @@ def name_rejection(case, r, run, v):
         if not out:
             out.append(("%s verdict rejected | %s" % (fam, kind), "%s: TLC rejects the verdict event" % where))
         return out
-    # an ordinary stage event the machine does not allow here (repeated, out of order, restart)
-    return [("%s stage %s out of order for article %s | %s" % (fam, s, ev["a"], kind),
-             "%s: event %d (%s of article %s) is not a step of the stage machine; stages per article %s"
-             % (where, v["l"], s, ev["a"], v["stages"]))]
+    return [("%s event %s rejected | %s" % (fam, s, kind), "%s: TLC rejects event %d (%s) in phase %s" % (where, v["l"], s, v["phase"]))]
 
 
 # ----------------------------------------------------------------------------- the check
@@ -521,15 +528,19 @@ def judge_and_report(ctx, caselist, rendered, name="RenderTrace_all"):
     verdicts, res = validate_runs(ctx, runs, name)
     stats = {"accepted": 0, "rejected": 0, "incomplete": 0}
     per_kind = {}
+    ctx.stage_seen = getattr(ctx, "stage_seen", {})
     stages = {}
     odf_lost = {}
     for (i, r), run, v in zip(index, runs, verdicts):
         stats[v["verdict"]] += 1
-        pk = per_kind.setdefault(r["kind"], {"runs": 0, "accepted": 0})
+        pk = per_kind.setdefault(r["kind"], {"runs": 0, "accepted": 0, "stage_order_deviations": 0})
         pk["runs"] += 1
         pk["accepted"] += v["verdict"] == "accepted"
+        pk["stage_order_deviations"] += bool(v["deviated"])
+        seen = ctx.stage_seen.setdefault(r["kind"], set())
         for e in run["ev"][: v["l"] - 1]:
             stages[e["s"]] = stages.get(e["s"], 0) + 1
+            seen.add(e["s"])
         if r["kind"].startswith("odf.") and not r["exc"] and not r.get("harness"):
             label = {d["w"]: d["c"] for d in scope_den(caselist[i], r)}
             for w in set(run["den"]) - set(run["found"]):
@@ -603,6 +614,17 @@ def run(ctx):
     # ---- P-TRACE: TLC judges every recorded run
     runs, verdicts, tres, stats, per_kind, stages, odf_lost = judge_and_report(ctx, caselist, rendered)
     lap("runs judged by TLC")
+    # seam sanity (never a verdict): a stage that no run of a path ever showed means the wrapper of that
+    # seam no longer sees the code; reported only when the run is otherwise clean, so that a writer
+    # that fails everywhere is reported as the violation it is
+    if not ctx.violations and not ctx.known_hits:
+        seams = {"Expand": "Expander.expandTemplates", "Parse": "uparser.parse_string", "Clean": "TreeCleaner.clean / clean_all",
+                 "Layout": "RlWriter.writeArticle / ODFWriter.writeBook, writeTest", "OpenArchive": "wiki.make_wiki",
+                 "Output": "output file of the entry point"}
+        blind = ["%s never observed in any %s run (seam: %s)" % (st, kind, seams[st])
+                 for kind, seen in sorted(ctx.stage_seen.items()) for st in seams if st not in seen]
+        if blind:
+            ctx.machinery("stage observation lost: " + "; ".join(blind))
     missing = tlc.uncovered_actions(tres, ["Step", "Finish"])
     if missing:
         ctx.machinery("actions never taken in RenderTrace: %s" % missing)
@@ -690,8 +712,10 @@ def run(ctx):
                               "found": len(r["found"]), "exception": (r["exc"] or {}).get("cls")} for r in results]}, limit=4)
     ctx.assume("pypdf text extraction is faithful for the generated word codes (6 characters, 'Z' + lower-case/digits without f,i,l)",
                "odflint (odfpy) decides ODF validity; its complaint about the mimetype member's zip header is ignored as in the repository's own test",
-               "stage observation by wrapping Expander.expandTemplates, uparser.parse_string, TreeCleaner.clean_all, "
-               "RlWriter.writeArticle/renderBook and ODFWriter.write in the rendering child process",
+               "the verdict uses output-level observations only (archive opened, entry point returned, no second 'laying out' "
+               "announcement on the status callback, output file, readability, words); stage observations (wrappers around "
+               "Expander.expandTemplates, every binding of uparser.parse_string, TreeCleaner.clean/clean_all, RlWriter.writeArticle, "
+               "ODFWriter.writeBook/writeTest) are evidence and a seam sanity check, never a verdict",
                "word coverage of the ODF text is %s" % ("part of the verdict" if ODF_WORDS_IN_VERDICT else
                                                         "measured and reported only (the statement claims it for the PDF)"),
                "ImageMagick ('magick') and pdftk/pdfsam are not installed: stored images are RGB/greyscale PNG and JPEG "
